@@ -1,8 +1,8 @@
 /-
   Source tie, group Acks: `renet/src/remote_connection.rs` `RenetClient::{add_pending_ack, acked_largest}`
-  (translated over the struct VIEW `RenetClient { pending_acks }`: the translator rejects the methods if they touch
-  any other field) ↔ `Acks.add 64` / `Acks.ackedLargest` of `Renet/Acks.lean`.
-  `absAcks` : generated struct ↦ model list of half-open ranges, `reprAcks` its inverse.
+  ↔ `Acks.add 64` / `Acks.ackedLargest` of `Renet/Acks.lean`.  `RenetClient` is the struct of group ConnTypes (without
+  its statistics fields); the two methods change nothing but `pending_acks`:
+  `absAcks` : generated struct ↦ model list of half-open ranges, `reprAcks base l` : `base` with the pending acks `l`.
   The equivalences hold for ALL range lists (not only `Acks.WF` ones) of length ≤ 64 (the cap the code maintains).
 -/
 import RenetVerif.Lemmas.SrcEquiv.Acks
@@ -15,19 +15,19 @@ open Src.renet.remote_connection
 theorem acks_add_pending_ack {ε : Type} (c : RenetClient) (sequence : Nat) (hs : sequence < 2 ^ 64 - 1)
     (hlen : c.pending_acks.length ≤ 64) :
     (RenetClient.add_pending_ack c sequence : Res ε (RenetClient × Unit)) =
-      .ok (reprAcks (Acks.add 64 sequence (absAcks c)), ()) := by
-  have h := add_pending_ack_eq (ε := ε) (absAcks c) sequence (by omega) (by simpa [absAcks] using hlen)
+      .ok (reprAcks c (Acks.add 64 sequence (absAcks c)), ()) := by
+  have h := add_pending_ack_eq (ε := ε) (base := c) (absAcks c) sequence (by omega) (by simpa [absAcks] using hlen)
   rwa [reprAcks_absAcks] at h
 
 /-- at `sequence = u64::MAX` the checked `sequence + 1` overflows: panic, unless the first range already contains
     the sequence (then the state is returned unchanged) -/
-theorem acks_add_pending_ack_u64_max {ε : Type} (l : List AckRange) :
+theorem acks_add_pending_ack_u64_max {ε : Type} (base : RenetClient) (l : List AckRange) :
     match l with
-    | [] => ∃ site, (RenetClient.add_pending_ack (reprAcks l) (2 ^ 64 - 1) : Res ε _) = .panic site
+    | [] => ∃ site, (RenetClient.add_pending_ack (reprAcks base l) (2 ^ 64 - 1) : Res ε _) = .panic site
     | (s, e) :: _ =>
       if s ≤ 2 ^ 64 - 1 ∧ 2 ^ 64 - 1 < e then
-        (RenetClient.add_pending_ack (reprAcks l) (2 ^ 64 - 1) : Res ε _) = .ok (reprAcks l, ())
-      else ∃ site, (RenetClient.add_pending_ack (reprAcks l) (2 ^ 64 - 1) : Res ε _) = .panic site :=
+        (RenetClient.add_pending_ack (reprAcks base l) (2 ^ 64 - 1) : Res ε _) = .ok (reprAcks base l, ())
+      else ∃ site, (RenetClient.add_pending_ack (reprAcks base l) (2 ^ 64 - 1) : Res ε _) = .panic site :=
   add_pending_ack_max l
 
 /-- `acked_largest(largest_ack)` (the `while` loop, run on the manifest fuel `pending_acks.len() + 1`): for range ends
@@ -36,8 +36,8 @@ theorem acks_add_pending_ack_u64_max {ε : Type} (l : List AckRange) :
 theorem acks_acked_largest {ε : Type} (c : RenetClient) (largest_ack : Nat)
     (hb : ∀ r ∈ c.pending_acks, r.«end» < 2 ^ 64) (hfit : c.pending_acks.length + 1 < 2 ^ 64) :
     (RenetClient.acked_largest c largest_ack : Res ε (RenetClient × Unit)) =
-      .ok (reprAcks (Acks.ackedLargest largest_ack (absAcks c)), ()) := by
-  have h := acked_largest_eq (ε := ε) (absAcks c) largest_ack
+      .ok (reprAcks c (Acks.ackedLargest largest_ack (absAcks c)), ()) := by
+  have h := acked_largest_eq (ε := ε) (base := c) (absAcks c) largest_ack
     (by intro r hr; simp only [absAcks, List.mem_map] at hr; obtain ⟨x, hx, rfl⟩ := hr; exact hb x hx)
     (by simpa [absAcks] using hfit)
   rwa [reprAcks_absAcks] at h
@@ -49,17 +49,20 @@ theorem acks_acked_largest_fuel_suffices {ε : Type} (c : RenetClient) (largest_
       .panic "renet/src/remote_connection.rs:RenetClient::acked_largest: fuel exhausted" := by
   rw [acks_acked_largest c largest_ack hb hfit]; intro h; cases h
 
+/-- a client without channels -/
+def exClient (acks : List RustSem.Range) : RenetClient := ⟨0, 0, [], acks, [], [], [], [], [], 0, .Connecting⟩
+
 /-! the sequence of the Rust unit test `pending_acks`: 3, 4, 2, 0, 7, 1 -/
-example : (RenetClient.add_pending_ack ⟨[]⟩ 3 : Res Empty _) = .ok (⟨[⟨3, 4⟩]⟩, ()) := by decide +kernel
-example : (RenetClient.add_pending_ack ⟨[⟨3, 4⟩]⟩ 4 : Res Empty _) = .ok (⟨[⟨3, 5⟩]⟩, ()) := by decide +kernel
-example : (RenetClient.add_pending_ack ⟨[⟨3, 5⟩]⟩ 2 : Res Empty _) = .ok (⟨[⟨2, 5⟩]⟩, ()) := by decide +kernel
-example : (RenetClient.add_pending_ack ⟨[⟨2, 5⟩]⟩ 0 : Res Empty _) = .ok (⟨[⟨0, 1⟩, ⟨2, 5⟩]⟩, ()) := by decide +kernel
-example : (RenetClient.add_pending_ack ⟨[⟨0, 1⟩, ⟨2, 5⟩]⟩ 7 : Res Empty _) = .ok (⟨[⟨0, 1⟩, ⟨2, 5⟩, ⟨7, 8⟩]⟩, ()) := by
+example : (RenetClient.add_pending_ack (exClient []) 3 : Res Empty _) = .ok ((exClient [⟨3, 4⟩]), ()) := by decide +kernel
+example : (RenetClient.add_pending_ack (exClient [⟨3, 4⟩]) 4 : Res Empty _) = .ok ((exClient [⟨3, 5⟩]), ()) := by decide +kernel
+example : (RenetClient.add_pending_ack (exClient [⟨3, 5⟩]) 2 : Res Empty _) = .ok ((exClient [⟨2, 5⟩]), ()) := by decide +kernel
+example : (RenetClient.add_pending_ack (exClient [⟨2, 5⟩]) 0 : Res Empty _) = .ok ((exClient [⟨0, 1⟩, ⟨2, 5⟩]), ()) := by decide +kernel
+example : (RenetClient.add_pending_ack (exClient [⟨0, 1⟩, ⟨2, 5⟩]) 7 : Res Empty _) = .ok ((exClient [⟨0, 1⟩, ⟨2, 5⟩, ⟨7, 8⟩]), ()) := by
   decide +kernel
-example : (RenetClient.add_pending_ack ⟨[⟨0, 1⟩, ⟨2, 5⟩, ⟨7, 8⟩]⟩ 1 : Res Empty _) = .ok (⟨[⟨0, 5⟩, ⟨7, 8⟩]⟩, ()) := by
+example : (RenetClient.add_pending_ack (exClient [⟨0, 1⟩, ⟨2, 5⟩, ⟨7, 8⟩]) 1 : Res Empty _) = .ok ((exClient [⟨0, 5⟩, ⟨7, 8⟩]), ()) := by
   decide +kernel
-example : (RenetClient.acked_largest ⟨[⟨0, 5⟩, ⟨7, 8⟩, ⟨10, 12⟩]⟩ 7 : Res Empty _) = .ok (⟨[⟨10, 12⟩]⟩, ()) := by
+example : (RenetClient.acked_largest (exClient [⟨0, 5⟩, ⟨7, 8⟩, ⟨10, 12⟩]) 7 : Res Empty _) = .ok ((exClient [⟨10, 12⟩]), ()) := by
   decide +kernel
-example : (RenetClient.acked_largest ⟨[⟨0, 5⟩, ⟨7, 10⟩]⟩ 7 : Res Empty _) = .ok (⟨[⟨8, 10⟩]⟩, ()) := by decide +kernel
+example : (RenetClient.acked_largest (exClient [⟨0, 5⟩, ⟨7, 10⟩]) 7 : Res Empty _) = .ok ((exClient [⟨8, 10⟩]), ()) := by decide +kernel
 
 end RenetVerif.SrcTie
